@@ -32,7 +32,7 @@ func init() {
 		Level: "exploration",
 		Rule: "E1 bounded-exhaustive enumeration of the kind grammar T ::= scalar | string | [k]T | []T | map[K]T | *T | interface{} | struct{T,…} built with reflect to depth 3 (thorough 4) (every depth-1 type, then W types spread over each level as elements of the next): all 17 scalar kinds (bool, int8..64, int, uint8..64, uint, uintptr, float32/64, complex64/128) at every leaf position of depth-1 composites, a 7-type leaf subset plus 9 types of the previous level for binary structs; arrays of 0 and 2 elements; struct arity 1 and 2; map keys string/int32/uint; " +
 			"values per type from a shape alphabet (slices nil/empty/1/2 elements, maps nil/empty/1/2 entries, pointers nil/non-nil, interfaces nil/scalar/string/pointer/struct, strings \"\",\"a\",\"abc\" and 40 bytes; over leaf types also slices of 9, 70 and 1025 elements and maps of 9, 40 and 1000 entries; pointer values are deliberately REUSED in both elements of arrays and both fields of structs, so shared acyclic pointers occur). Oracle: the generator returns (value, size) and computes the size while building (headers 16/24/8/8/16, 8 for int/uint/uintptr; 64-bit platform asserted). size.Of on every value; Stat(v,d,m) for d in {0,1,3}, m in {0,1,10} and the AvgOf form: the number on the first line equals the expected size. " +
-			"Plus 34 hand-written values (16 of them deep: linked lists of 999..50001 nodes and interface/pointer chains of 1000..10000 boxes) (among them maps whose struct / array / interface keys differ in structural size) of Go types reflect cannot build (unexported and embedded fields, named types, padding, interior pointers of another type into the object being walked - to its first field or element and further in), and a SEQUENCE of 13 values of distinct types that print alike (seven local types all called props.rec, two package-level types both called model.Rec; in pairs also equal in Size and Kind), measured in order by one goroutine, forward then backward: nothing may be carried from one type to a like-named one; and a SEQUENCE on shared objects in which out-of-domain calls (a chan, a func, an unsafe.Pointer behind pointers: Of and Stat panic, the caller recovers) come between measurements of in-domain values that reach the same pointers: a recovered panic must leave nothing behind. A case is one (value, function) pair; non-trivial when the type is composite.",
+			"Plus WIDE structs (7..257 fields, the last six a string, a []byte, a pointer, an interface, a map and an array; alone, in slices of 1..3, a [2] array and a map). Plus 34 hand-written values (16 of them deep: linked lists of 999..50001 nodes and interface/pointer chains of 1000..10000 boxes) (among them maps whose struct / array / interface keys differ in structural size) of Go types reflect cannot build (unexported and embedded fields, named types, padding, interior pointers of another type into the object being walked - to its first field or element and further in), and a SEQUENCE of 13 values of distinct types that print alike (seven local types all called props.rec, two package-level types both called model.Rec; in pairs also equal in Size and Kind), measured in order by one goroutine, forward then backward: nothing may be carried from one type to a like-named one; and a SEQUENCE on shared objects in which out-of-domain calls (a chan, a func, an unsafe.Pointer behind pointers: Of and Stat panic, the caller recovers) come between measurements of in-domain values that reach the same pointers: a recovered panic must leave nothing behind. A case is one (value, function) pair; non-trivial when the type is composite.",
 		Assumptions: []string{
 			"64-bit platform (asserted at start)",
 			"types deeper than D, struct arity > 2 and cyclic values are not generated (cycles are excluded by the statement)",
@@ -266,6 +266,56 @@ type c20Unexp struct {
 	i interface{}
 	m map[c20MyStr]c20MyInt
 	l []c20Emb
+}
+
+// c20Wide: WIDE structs (reflect.StructOf): W fields of which the first W-6 are int8 and the last six are a
+// string, a []byte, a *int32, an interface{}, a map[string]int8 and a [2]string - for W around 8, 16, 32, 64,
+// 128 and 256 - alone, as the elements of slices of 1, 2 and 3, of a [2] array and as a map value: a per-type
+// plan that keeps one bit or one small counter per field has to survive more fields than it has room for.
+func c20Wide() c20Type {
+	t := c20Type{t: reflect.TypeOf(struct{ Wide int8 }{}), composite: true}
+	i32 := int32(5)
+	for _, W := range []int{7, 8, 9, 15, 16, 17, 31, 32, 33, 63, 64, 65, 66, 70, 127, 128, 129, 255, 256, 257} {
+		var fs []reflect.StructField
+		for i := 0; i < W-6; i++ {
+			fs = append(fs, reflect.StructField{Name: fmt.Sprintf("F%d", i), Type: reflect.TypeOf(int8(0))})
+		}
+		tail := []interface{}{"abc", []byte("hello"), &i32, interface{}(int16(3)), map[string]int8{"k": 1}, [2]string{"x", "yz"}}
+		tailSize := (16 + 3) + (24 + 5) + (8 + 4) + (16 + 2) + (8 + 16 + 1 + 1) + (16 + 1 + 16 + 2)
+		types := []reflect.Type{reflect.TypeOf(""), reflect.TypeOf([]byte(nil)), reflect.TypeOf(&i32), c20Iface, reflect.TypeOf(map[string]int8(nil)), reflect.TypeOf([2]string{})}
+		for i, ty := range types {
+			fs = append(fs, reflect.StructField{Name: fmt.Sprintf("T%d", i), Type: ty})
+		}
+		st := reflect.StructOf(fs)
+		mk := func(seed int) reflect.Value {
+			v := reflect.New(st).Elem()
+			for i := 0; i < W-6; i++ {
+				v.Field(i).SetInt(int64((i + seed) % 100))
+			}
+			for i, x := range tail {
+				v.Field(W - 6 + i).Set(reflect.ValueOf(x))
+			}
+			return v
+		}
+		one := (W - 6) + tailSize
+		t.vals = append(t.vals, c20Val{mk(0), one, fmt.Sprintf("struct of %d fields, the last six not scalar", W)})
+		for _, n := range []int{1, 2, 3} {
+			sl := reflect.MakeSlice(reflect.SliceOf(st), n, n)
+			for i := 0; i < n; i++ {
+				sl.Index(i).Set(mk(i))
+			}
+			t.vals = append(t.vals, c20Val{sl, 24 + n*one, fmt.Sprintf("slice of %d structs of %d fields", n, W)})
+		}
+		arr := reflect.New(reflect.ArrayOf(2, st)).Elem()
+		arr.Index(0).Set(mk(0))
+		arr.Index(1).Set(mk(1))
+		t.vals = append(t.vals, c20Val{arr, 2 * one, fmt.Sprintf("[2] array of structs of %d fields", W)})
+		m := reflect.MakeMap(reflect.MapOf(reflect.TypeOf(int32(0)), st))
+		m.SetMapIndex(reflect.ValueOf(int32(1)), mk(0))
+		m.SetMapIndex(reflect.ValueOf(int32(2)), mk(1))
+		t.vals = append(t.vals, c20Val{m, 8 + 2*(4+one), fmt.Sprintf("map[int32]struct of %d fields, 2 entries", W)})
+	}
+	return t
 }
 
 func c20Handwritten() c20Type {
@@ -750,7 +800,7 @@ func c20Run(c *mc.Ctx) {
 	c.Set("type_depth", D)
 	c.Set("types", len(types))
 	c.Set("types_per_depth", per)
-	types = append(types, c20Handwritten(), c20SameNamed(), c20IfaceSlots(), c20AfterPanic())
+	types = append(types, c20Handwritten(), c20SameNamed(), c20IfaceSlots(), c20AfterPanic(), c20Wide())
 	nvals := 0
 	for _, t := range types {
 		nvals += len(t.vals)
@@ -818,7 +868,7 @@ func c20Judge(kind string, cs c20Case) (got, want string) {
 		return fmt.Sprintf("Of=%s%d", p, g), "Of=0"
 	}
 	types, _ := c20Types(cs.Depth, cs.Width)
-	types = append(types, c20Handwritten(), c20SameNamed(), c20IfaceSlots(), c20AfterPanic())
+	types = append(types, c20Handwritten(), c20SameNamed(), c20IfaceSlots(), c20AfterPanic(), c20Wide())
 	if cs.Path[0] >= len(types) || cs.Path[1] >= len(types[cs.Path[0]].vals) {
 		return "case does not exist in this enumeration", ""
 	}
